@@ -402,6 +402,9 @@ theorem step_inv {hist : List Call} {s : St} (hi : Inv hist s) (c : Call) :
             exact ⟨hw, hfc, by rw [hidq]; exact h3, by intro h; rw [hc] at h; exact absurd h (by simp)⟩
       · simp only [ne_eq, hid, not_false_eq_true, if_true]
         exact ⟨keep, Nat.le_refl _, by simp⟩
+  | redeploy =>
+    simp only [step]
+    exact ⟨by intro p hp; simp at hp, Nat.le_refl _, by simp⟩
 
 /-! ### traces -/
 
@@ -425,49 +428,52 @@ theorem published_good (calls : List Call) : ∀ (hist : List Call) (s : St), In
     · have := ih (hist ++ [c]) _ hi' snap h
       simpa [List.append_assoc] using this
 
-/-- shape of one step with respect to starting and finishing checkpoints (no invariant needed) -/
+/-- shape of one step with respect to starting, finishing and abandoning checkpoints (no invariant needed) -/
 theorem step_shape (s : St) (c : Call) :
     ((step s c).2.1.created = [s.cid + 1] ∧ s.pending = none ∧ (step s c).1.pending.isSome = true ∧
-        (step s c).1.cid = s.cid + 1 ∧ (step s c).2.2 = none) ∨
+        (step s c).1.cid = s.cid + 1 ∧ (step s c).2.2 = none ∧ c ≠ .redeploy) ∨
     ((step s c).2.1.created = [] ∧ (∃ snap, (step s c).2.2 = some snap) ∧ s.pending.isSome = true ∧
-        (step s c).1.pending = none ∧ (step s c).1.cid = s.cid) ∨
+        (step s c).1.pending = none ∧ (step s c).1.cid = s.cid ∧ c ≠ .redeploy) ∨
     ((step s c).2.1.created = [] ∧ (step s c).2.2 = none ∧ (step s c).1.cid = s.cid ∧
-        (step s c).1.pending.isSome = s.pending.isSome) := by
+        (step s c).1.pending.isSome = s.pending.isSome ∧ c ≠ .redeploy) ∨
+    ((step s c).2.1.created = [] ∧ (step s c).2.2 = none ∧ (step s c).1.cid = s.cid ∧
+        (step s c).1.pending = none ∧ c = .redeploy) := by
   cases c with
   | create ops srs =>
     cases hp : s.pending with
-    | some p => right; right; simp [step, hp, Res.created]
+    | some p => right; right; left; simp [step, hp, Res.created]
     | none => left; simp [step, hp, Res.created]
   | savepoint ops srs =>
     cases hp : s.pending with
     | some p =>
-      right; right
+      right; right; left
       by_cases hs : p.isSavepoint = true <;> simp [step, hp, hs, Res.created]
     | none => left; simp [step, hp, Res.created]
   | opAck op cp tag =>
     cases hp : s.pending with
-    | none => right; right; simp [step, hp, Res.created]
+    | none => right; right; left; simp [step, hp, Res.created]
     | some p =>
       by_cases hid : p.id = cp
       · rcases finishIfComplete_spec s (addOp p op cp tag) with ⟨_, he⟩ | ⟨_, he⟩
         · right; left; simp [step, hp, hid, he, Res.created]
-        · right; right; simp [step, hp, hid, he, Res.created]
-      · right; right; simp [step, hp, hid, Res.created]
+        · right; right; left; simp [step, hp, hid, he, Res.created]
+      · right; right; left; simp [step, hp, hid, Res.created]
   | srAck sr cp splits =>
     cases hp : s.pending with
-    | none => right; right; simp [step, hp, Res.created]
+    | none => right; right; left; simp [step, hp, Res.created]
     | some p =>
       by_cases hid : p.id = cp
       · cases ha : addSr p sr splits with
-        | none => right; right; simp [step, hp, hid, ha, Res.created]
+        | none => right; right; left; simp [step, hp, hid, ha, Res.created]
         | some p' =>
           rcases finishIfComplete_spec s p' with ⟨_, he⟩ | ⟨_, he⟩
           · right; left; simp [step, hp, hid, ha, he, Res.created]
-          · right; right; simp [step, hp, hid, ha, he, Res.created]
-      · right; right; simp [step, hp, hid, Res.created]
+          · right; right; left; simp [step, hp, hid, ha, he, Res.created]
+      · right; right; left; simp [step, hp, hid, Res.created]
+  | redeploy => right; right; right; simp [step, Res.created]
 
 theorem step_cid_le (s : St) (c : Call) : s.cid ≤ (step s c).1.cid := by
-  rcases step_shape s c with h | h | h <;> omega
+  rcases step_shape s c with h | h | h | h <;> omega
 
 theorem created_gt (calls : List Call) : ∀ (s : St), ∀ n ∈ createdIds s calls, s.cid < n := by
   induction calls with
@@ -476,7 +482,7 @@ theorem created_gt (calls : List Call) : ∀ (s : St), ∀ n ∈ createdIds s ca
     intro s n h
     simp only [createdIds, List.mem_append] at h
     rcases h with h | h
-    · rcases step_shape s c with h' | h' | h' <;> rw [h'.1] at h <;> simp at h
+    · rcases step_shape s c with h' | h' | h' | h' <;> rw [h'.1] at h <;> simp at h
       omega
     · have := ih _ n h
       have := step_cid_le s c
@@ -490,26 +496,29 @@ theorem created_pairwise (calls : List Call) : ∀ (s : St), (createdIds s calls
     simp only [createdIds]
     rw [List.pairwise_append]
     refine ⟨?_, ih _, ?_⟩
-    · rcases step_shape s c with h' | h' | h' <;> rw [h'.1] <;> simp
+    · rcases step_shape s c with h' | h' | h' | h' <;> rw [h'.1] <;> simp
     · intro a ha b hb
       have hb' := created_gt cs _ b hb
-      rcases step_shape s c with h' | h' | h' <;> rw [h'.1] at ha <;> simp at ha
+      rcases step_shape s c with h' | h' | h' | h' <;> rw [h'.1] at ha <;> simp at ha
       omega
 
-/-- started minus finished checkpoints is never more than one -/
+/-- started checkpoints are finished, abandoned by a redeployment, or the (single) pending one -/
 theorem created_le_published (calls : List Call) : ∀ (s : St),
-    (createdIds s calls).length + (if s.pending.isSome then 1 else 0) ≤ (published s calls).length + 1 := by
+    (createdIds s calls).length + (if s.pending.isSome then 1 else 0) ≤
+      (published s calls).length + abandoned s calls + 1 := by
   induction calls with
-  | nil => intro s; simp [createdIds, published]; split <;> omega
+  | nil => intro s; simp [createdIds, published, abandoned]; split <;> omega
   | cons c cs ih =>
     intro s
     have := ih (step s c).1
-    simp only [createdIds, published, List.length_append]
-    rcases step_shape s c with h | h | h
-    · rw [h.1, h.2.2.2.2]; rw [h.2.2.1] at this; simp [h.2.1] at this ⊢; omega
+    simp only [createdIds, published, abandoned, List.length_append]
+    rcases step_shape s c with h | h | h | h
+    · rw [h.1, h.2.2.2.2.1]; rw [h.2.2.1] at this; simp [h.2.1, h.2.2.2.2.2] at this ⊢; omega
     · obtain ⟨snap, hs⟩ := h.2.1
-      rw [h.1, hs]; rw [h.2.2.2.1] at this; simp [h.2.2.1] at this ⊢; omega
-    · rw [h.1, h.2.1]; rw [h.2.2.2] at this; simp at this ⊢; omega
+      rw [h.1, hs]; rw [h.2.2.2.1] at this; simp [h.2.2.1, h.2.2.2.2.2] at this ⊢; omega
+    · rw [h.1, h.2.1]; rw [h.2.2.2.1] at this; simp [h.2.2.2.2] at this ⊢; omega
+    · rw [h.1, h.2.1]; rw [h.2.2.2.1] at this; simp [h.2.2.2.2] at this ⊢
+      split <;> simp_all <;> omega
 
 theorem published_ge (calls : List Call) : ∀ (hist : List Call) (s : St), Inv hist s →
     ∀ snap ∈ published s calls, (if s.pending.isSome then s.cid ≤ snap.id else s.cid < snap.id) := by
@@ -525,15 +534,17 @@ theorem published_ge (calls : List Call) : ∀ (hist : List Call) (s : St), Inv 
         | none => rw [hq] at h; simp at h
         | some q => rw [hq] at h; simp at h; rw [h]
       have hid := (hpub snap hs).2.1
-      rcases step_shape s c with h' | h' | h'
-      · rw [h'.2.2.2.2] at hs; exact absurd hs (by simp)
+      rcases step_shape s c with h' | h' | h' | h'
+      · rw [h'.2.2.2.2.1] at hs; exact absurd hs (by simp)
       · rw [h'.2.2.1]; simp; omega
       · rw [h'.2.1] at hs; exact absurd hs (by simp)
+      · rw [h'.2.1] at hs; exact absurd hs (by simp)
     · have h2 := ih _ _ hi' snap h
-      rcases step_shape s c with h' | h' | h'
+      rcases step_shape s c with h' | h' | h' | h'
       · rw [h'.2.2.1] at h2; simp at h2; rw [h'.2.1]; simp; omega
       · rw [h'.2.2.2.1] at h2; simp at h2; split <;> omega
-      · rw [h'.2.2.2] at h2; rw [h'.2.2.1] at h2; exact h2
+      · rw [h'.2.2.2.1] at h2; rw [h'.2.2.1] at h2; exact h2
+      · rw [h'.2.2.2.1] at h2; simp at h2; split <;> omega
 
 theorem published_pairwise (calls : List Call) : ∀ (hist : List Call) (s : St), Inv hist s →
     ((published s calls).map (·.id)).Pairwise (· < ·) := by
